@@ -446,7 +446,7 @@ ensures
         // [C10.unsolicited_nack_sends_nothing]
         (response is Nack && !old(self).outstanding_requests@.contains_key(spec_req_hash(response.req()))) ==>
             final(self).other.requests_sent() == old(self).other.requests_sent() && final(self).nack_retried@ == old(self).nack_retried@,
-        // [C14.unsolicited_response_changes_nothing]
+        // [C14.unsolicited_response_changes_nothing C10.unsolicited_response_changes_nothing]
         !old(self).outstanding_requests@.contains_key(spec_req_hash(response.req())) ==>
             final(self).slice_roots@ == old(self).slice_roots@ && final(self).outstanding_requests@ == old(self).outstanding_requests@
             && final(self).blockstore.stored() == old(self).blockstore.stored(),
@@ -459,7 +459,7 @@ ensures
         final(self).blockstore.stored() != old(self).blockstore.stored() ==>
             (response matches RepairResponse::Shred(q, shred) && (q matches RepairRequestType::Shred(b, sl, i)
                 && old(self).last_slices@.contains_key(b) && shred.spec_payload().header.is_last == (sl == old(self).last_slices@[b]))),
-        // [C14.re_tagged_answer_leaves_the_request_outstanding] a genuine shred with a flipped data/coding tag passes every check the
+        // [C14.re_tagged_answer_leaves_the_request_outstanding C10.re_tagged_answer_leaves_the_request_outstanding] a genuine shred with a flipped data/coding tag passes every check the
         // requester can make; the blockstore refuses it, and then the request is still waiting for the right answer
         (old(self).outstanding_requests@.contains_key(spec_req_hash(response.req()))
             && (response matches RepairResponse::Shred(q, shred) && old(self).checked_shred(q, shred) && !shred.spec_tag_fits()))
@@ -472,12 +472,12 @@ ensures
             (response matches RepairResponse::LastSliceRoot(q, l, root, proof) ==> (q matches RepairRequestType::LastSliceRoot(b) && final(self).slice_roots@.contains_key((b, l)) && final(self).slice_roots@[(b, l)] == root)),
         (old(self).outstanding_requests@.contains_key(spec_req_hash(response.req())) && old(self).accepts(response)) ==>
             (response matches RepairResponse::SliceRoot(q, root, proof) ==> (q matches RepairRequestType::SliceRoot(b, sl) && final(self).slice_roots@.contains_key((b, sl)) && final(self).slice_roots@[(b, sl)] == root)),
-        // [C14.rejected_response_changes_nothing C15.last_slice_claim_needs_last_leaf_proof]
+        // [C14.rejected_response_changes_nothing C15.last_slice_claim_needs_last_leaf_proof C10.rejected_response_changes_nothing]
         // (in particular a LastSliceRoot answer is only believed with a proof that the slice is the LAST leaf)
         (old(self).outstanding_requests@.contains_key(spec_req_hash(response.req())) && !old(self).accepts(response)) ==>
             final(self).slice_roots@ == old(self).slice_roots@ && final(self).outstanding_requests@ == old(self).outstanding_requests@
             && final(self).blockstore.stored() == old(self).blockstore.stored() && final(self).last_slices@ == old(self).last_slices@,
-        // [C14.invalid_response_leaves_request_outstanding]
+        // [C14.invalid_response_leaves_request_outstanding C10.invalid_response_leaves_request_outstanding] (C10: a forged answer cannot stop the repair)
         (old(self).outstanding_requests@.contains_key(spec_req_hash(response.req())) && !old(self).accepts(response)) ==>
             final(self).outstanding_requests@.contains_key(spec_req_hash(response.req())),
 before `let request_hash = response.request_type().hash();`
